@@ -160,7 +160,8 @@ Definition init_cl (cfg : list string) : cl :=
   let nows := match get "now" with Some v => parse_nows v | None => [] end in
   let leader := match get "leader" with Some v => default 0%nat (parse_nat_Z v) | None => 0%nat end in
   let fwd := match get "forward" with Some v => String.eqb v "1" | None => false end in
-  {| cl_nodes := map (fun i => init_state (nth i nows default_now)) (seq 0 n);
+  let maxmem := match get "maxmem" with Some v => default 0 (parse_int v) | None => 0 end in
+  {| cl_nodes := map (fun i => (init_state (nth i nows default_now)) <| st_maxmem := maxmem |>) (seq 0 n);
      cl_out := map (fun _ => []) (seq 0 n);
      cl_leader := leader; cl_forward := fwd; cl_snap := []; cl_begun := init_state 0 |}.
 
